@@ -84,7 +84,8 @@ def run(ck, repo: Repo, tier: str):
     closure = {q for q in closure if q in funcs}
     ck.count("closure-functions", len(closure))
     ck.extra["call_graph"] = dict(res.cg_stats)
-    n_calls = n_rng = n_sets = 0
+    n_calls = n_rng = n_sets = n_spaces = 0
+    undecided_sets = []
     for q in sorted(closure):
         fn, mi = funcs[q]
         if "<locals>" in q:
@@ -121,6 +122,26 @@ def run(ck, repo: Repo, tier: str):
                 seed_kw = next(k.value for k in n.keywords if k.arg == "seed")
             if isinstance(f, ast.Attribute) and f.attr == "seed" and dotted(f).endswith("action_space.seed"):
                 seed_kw = n.args[0] if n.args else ast.Constant(value=None)
+            # the action space that is seeded / sampled is the one of the environment object the routine was given: a wrapper may
+            # define its own action space, so `env.unwrapped.action_space` (or any other detour) is a different generator
+            if isinstance(f, ast.Attribute) and f.attr in ("seed", "sample") and isinstance(f.value, ast.Attribute) and f.value.attr == "action_space":
+                base = f.value.value
+                if isinstance(base, ast.Name) and base.id in params:
+                    ok_sp = True
+                elif isinstance(base, ast.Name):
+                    # a local alias of a parameter / an element of a parameter (vector envs) is the same object
+                    defs_ = [x for x in ast.walk(fn) if isinstance(x, ast.Assign) and any(isinstance(t, ast.Name) and t.id == base.id for t in x.targets)]
+                    ok_sp = None if not defs_ else all(isinstance(x.value, ast.Name) and x.value.id in params for x in defs_) or None
+                elif isinstance(base, ast.Attribute) and base.attr in ("unwrapped", "env") :
+                    ok_sp = False
+                else:
+                    ok_sp = None
+                n_spaces += 1
+                if ok_sp is None:
+                    undecided_sets.append(f"{q}: cannot tell which environment object `{short(base, 40)}` is (action space {f.attr})")
+                else:
+                    ck.ob("R2-seed-provenance", q, f"action-space:{f.attr}:{short(base, 30)}", ok_sp, f"`{short(n, 60)}`",
+                          "" if ok_sp else f"the action space that is {'seeded' if f.attr == 'seed' else 'sampled'} belongs to `{short(base, 40)}`, not to the environment object the routine steps and samples from: behind an action wrapper the sampled space stays unseeded", where)
             if is_ctor or seed_kw is not None:
                 n_rng += 1
                 arg = seed_kw if seed_kw is not None else (n.args[0] if n.args else next((k.value for k in n.keywords if k.arg in ("seed", "default", "params")), None))
@@ -145,12 +166,19 @@ def run(ck, repo: Repo, tier: str):
             if kind is None:
                 continue
             n_sets += 1
+            if kind == "unknown":
+                undecided_sets.append(f"{q}: cannot tell what the set `{short(it, 40)}` holds")
+                continue
             ok = kind == "int"
             ck.ob("R3-unordered-iteration", q, f"iterates:{short(it, 40)}", ok, f"`{short(n if not isinstance(n, ast.comprehension) else it, 70)}` over a set of {kind}",
-                  "" if ok else "iteration order of a set of non-integers depends on hash randomisation: results differ between processes", loc(mi, it))
+                  "" if ok else ("iteration order of a set of strings depends on hash randomisation: results differ between processes" if kind == "str" else
+                                 "iteration order of a set of objects hashed by identity depends on memory addresses: the same random index selects different members from run to run"), loc(mi, it))
     ck.count("call-expressions", n_calls)
+    if undecided_sets:
+        ck.incomplete.append("; ".join(undecided_sets[:3]))
     ck.floor("rng-constructors-and-seeding-calls", n_rng, 60)
     ck.floor("set-iterations", n_sets, 3)
+    ck.floor("action-space-seed-and-sample-sites", n_spaces, 15)
     ck.ob("R1-forbidden-sources", "rl_blox", "closure-scanned", True, f"{n_calls} call expressions in {len(closure)} functions scanned, no forbidden source", "", "rl_blox/")
     # positive control: the rule must fire on a known-bad snippet (rules whose expected count is zero)
     bad_src = "import numpy as np\nimport random, time\n\ndef train_x(seed):\n    a = np.random.rand()\n    b = random.random()\n    r = np.random.default_rng()\n    t = time.time()\n    for k in {'a', 'b'}:\n        pass\n"
@@ -160,11 +188,17 @@ def run(ck, repo: Repo, tier: str):
 
 def _set_kind(repo, fn, mi, it, _seen=None):
     """'int' / 'str' / 'unknown' if ``it`` is (an alias of) a set, else None."""
-    _seen = set() if _seen is None else _seen
+    _seen = {} if _seen is None else _seen
     key = (id(fn), ast.unparse(it))
     if key in _seen:
-        return None
-    _seen.add(key)
+        return _seen[key]          # None while in progress (cycle), else the memoised answer
+    _seen[key] = None
+    r_ = _set_kind_(repo, fn, mi, it, _seen)
+    _seen[key] = r_
+    return r_
+
+
+def _set_kind_(repo, fn, mi, it, _seen):
     e = it
     if isinstance(e, ast.Set):
         return _elem_kind(e.elts)
@@ -229,11 +263,92 @@ def _set_kind(repo, fn, mi, it, _seen=None):
         # additions must be ints as well
         for n in ast.walk(scope):
             if isinstance(n, ast.Call) and isinstance(n.func, ast.Attribute) and n.func.attr in ("add", "update") and dotted(n.func.value) == name and n.args:
-                a = n.args[0]
-                if isinstance(a, ast.Constant) and not isinstance(a.value, int):
-                    return "str" if isinstance(a.value, str) else "unknown"
+                owner = n
+                while owner is not None and not isinstance(owner, ast.FunctionDef):
+                    owner = getattr(owner, "_parent", None)
+                k = _value_kind(owner or fn, scope, n.args[0], n.func.attr == "update", set_kind=lambda it_, f_=owner or fn: _set_kind(repo, f_, mi, it_, _seen))
+                if k != "int":
+                    return k
         return "int"
     return "str" if "str" in kinds else "unknown"
+
+
+def _value_kind(fn, cls_scope, e, is_iterable=False, depth=0, set_kind=None):
+    """'int' / 'str' / 'object' / 'unknown' for the value(s) put into a set."""
+    if depth > 6:
+        return "unknown"
+    if isinstance(e, ast.Constant):
+        return "int" if isinstance(e.value, int) else "str" if isinstance(e.value, str) else "unknown"
+    if isinstance(e, (ast.List, ast.Tuple, ast.Set)) and is_iterable:
+        ks = {_value_kind(fn, cls_scope, x, False, depth + 1, set_kind) for x in e.elts}
+        return ks.pop() if len(ks) == 1 else ("int" if not ks else "unknown")
+    if isinstance(e, ast.Call):
+        d = dotted(e.func)
+        if d in ("int", "len", "range", "ord") or d.endswith(".integers") or d.endswith(".choice") or d.endswith("arange") or d.endswith("argmax") or d.endswith("argmin"):
+            return "int"
+        if d in ("str", "repr") or d.endswith(".format") or d.endswith(".join"):
+            return "str"
+        if d and d[:1].isupper() or d in ("copy.deepcopy", "deepcopy", "object"):
+            return "object"
+        return "unknown"
+    if isinstance(e, ast.BinOp) and isinstance(e.op, (ast.Add, ast.Sub, ast.Mult, ast.Mod, ast.FloorDiv)):
+        ks = {_value_kind(fn, cls_scope, e.left, False, depth + 1), _value_kind(fn, cls_scope, e.right, False, depth + 1)}
+        return "int" if ks == {"int"} else "unknown"
+    name = dotted(e)
+    # a value on which a non-builtin method is called is an object instance (hashed by identity unless its class says otherwise)
+    _BUILTIN_METHODS = set(dir(int)) | set(dir(str)) | set(dir(float)) | {"item", "tolist", "astype"}
+    if name:
+        for scope_ in ([fn] + ([cls_scope] if isinstance(cls_scope, ast.ClassDef) else [])):
+            for n in ast.walk(scope_):
+                if isinstance(n, ast.Call) and isinstance(n.func, ast.Attribute) and n.func.attr not in _BUILTIN_METHODS and ast.dump(n.func.value) == ast.dump(e):
+                    return "object"
+    if isinstance(e, ast.Name):
+        # parameter annotated int / local with one kind of definition
+        for a in fn.args.posonlyargs + fn.args.args + fn.args.kwonlyargs:
+            if a.arg == e.id:
+                ann = ast.unparse(a.annotation) if a.annotation is not None else ""
+                return "int" if ann in ("int", "np.integer", "int | None") else "str" if ann == "str" else "unknown"
+        ks = set()
+        for n in ast.walk(fn):
+            if isinstance(n, ast.Assign) and any(isinstance(t, ast.Name) and t.id == e.id for t in n.targets):
+                ks.add(_value_kind(fn, cls_scope, n.value, False, depth + 1, set_kind))
+            elif isinstance(n, (ast.For, ast.comprehension)) and isinstance(n.target, ast.Name) and n.target.id == e.id:
+                it = n.iter
+                if isinstance(it, ast.Call) and dotted(it.func) in ("range", "enumerate"):
+                    ks.add("int")
+                else:
+                    sk = set_kind(it) if set_kind is not None else None    # iterating over a set of ints yields ints
+                    ks.add(sk if sk in ("int", "str") else "unknown")
+        return ks.pop() if len(ks) == 1 else "unknown"
+    if isinstance(e, ast.Attribute) and name and name.startswith("self.") and isinstance(cls_scope, ast.ClassDef):
+        ks = set()
+        for m in cls_scope.body:
+            if not isinstance(m, ast.FunctionDef):
+                continue
+            for n in ast.walk(m):
+                if isinstance(n, ast.Assign) and any(dotted(t) == name for t in n.targets):
+                    ks.add(_value_kind(m, cls_scope, n.value, False, depth + 1))
+        return ks.pop() if len(ks) == 1 else "unknown"
+    if isinstance(e, ast.Subscript):
+        base = dotted(e.value)
+        for scope_ in ([fn] + ([cls_scope] if isinstance(cls_scope, ast.ClassDef) else [])):
+            for n in ast.walk(scope_):
+                if isinstance(n, ast.Call) and isinstance(n.func, ast.Attribute) and n.func.attr not in _BUILTIN_METHODS and isinstance(n.func.value, ast.Subscript) and dotted(n.func.value.value) == base and base:
+                    return "object"
+        if base and base.startswith("self.") and isinstance(cls_scope, ast.ClassDef):
+            # element of a container attribute: what are its elements?
+            for m in cls_scope.body:
+                if not isinstance(m, ast.FunctionDef):
+                    continue
+                for n in ast.walk(m):
+                    if isinstance(n, ast.Assign) and any(dotted(t) == base for t in n.targets):
+                        v = n.value
+                        elts = v.elts if isinstance(v, (ast.List, ast.Tuple)) else [v.elt] if isinstance(v, (ast.ListComp, ast.GeneratorExp)) else None
+                        if elts is not None and elts:
+                            ks = {_value_kind(m, cls_scope, x, False, depth + 1) for x in elts}
+                            return ks.pop() if len(ks) == 1 else "unknown"
+        return "unknown"
+    return "unknown"
 
 
 def _elem_kind(elts):
@@ -280,6 +395,10 @@ def _selfcheck(src):
 
 _A = "rl_blox/algorithm/"
 MUTANTS = [
+    {"id": "c09-seed-unwrapped-space", "file": _A + "td3.py", "rule": "R2", "find": "    env.action_space.seed(seed)", "replace": "    env.unwrapped.action_space.seed(seed)"},
+    {"id": "c09-sample-unwrapped-space", "file": _A + "ddpg.py", "rule": "R2", "find": "            action = env.action_space.sample()", "replace": "            action = env.unwrapped.action_space.sample()"},
+    {"id": "c09-set-of-buffers", "file": "rl_blox/blox/replay_buffer.py", "rule": "R3", "edits": [("        self.active_buffers.add(self.selected_task)", "        self.active_buffers.add(self.buffers[self.selected_task])"),
+        ("        self.sampled_task_idx = rng.choice(list(self.active_buffers), size=1)[0]", "        cands = list(self.active_buffers)\n        self.sampled_task_idx = self.buffers.index(cands[rng.choice(len(cands), size=1)[0]])")]},
     {"id": "c09-unseeded-rng", "file": _A + "td3.py", "rule": "R2", "find": "    rng = np.random.default_rng(seed)", "replace": "    rng = np.random.default_rng()"},
     {"id": "c09-np-global", "file": _A + "ddpg.py", "rule": "R1", "find": "        if global_step < learning_starts:\n            action = env.action_space.sample()", "replace": "        if global_step < learning_starts:\n            action = np.random.uniform(env.action_space.low, env.action_space.high)"},
     {"id": "c09-stdlib-random", "file": _A + "smt.py", "rule": "R1", "find": "import copy\nimport warnings", "replace": "import copy\nimport random\nimport warnings", "edits": [("import copy\nimport warnings", "import copy\nimport random\nimport warnings"), ("            worst = main_pool_indices[worst_index]", "            worst = main_pool_indices[worst_index] if random.random() < 2.0 else main_pool_indices[0]")]},
